@@ -97,6 +97,8 @@ class ExactDist:
                         k = s + x
                         nxt[k] = nxt.get(k, 0.0) + p * b
             acc = nxt
+        # words scoring -inf are never >= a finite score: no tail mass, not an attainable score
+        acc.pop(NEG_INF, None)
         self.scores = sorted(acc)
         self.tail = []
         t = 0.0
